@@ -81,6 +81,9 @@ structure Inst where
   /-- has produced an output of its own since it was constructed / copied (a copy inherits `last`, which `cached()`
   needs, but two instances are only compared on outputs of their own) -/
   own : Bool := true
+  /-- a `filter` call was abandoned half-way by a panicking sample comparison (`fp`): the state is whatever the
+  unwinding left, the model does not follow it; only the ledger clauses still apply -/
+  poisoned : Bool := false
 
 /-- first stage of a source pipe: an adapter tree, or a scripted source that may answer `none` (an end marker) and
 later items again (not fused) — the pipe must poll it on every pull and add no state of its own -/
@@ -96,6 +99,8 @@ structure PipeInst where
   /-- inputs fed so far (`f` / `sink`), oldest first -/
   log : List V := []
   pulls : Nat := 0
+  /-- has been finalised at least once (`palive` reports on the most recent `pfin`) -/
+  finalised : Bool := false
 
 structure DState where
   insts : List (Nat × Inst) := []
@@ -386,6 +391,9 @@ def mkInjected (kind : String) (kv : KV) : Option (St V) :=
       { pre := ← kv.optVal "spre", post := ← kv.optVal "spost", median := ← kv.optVal "median" })
   | "convolve" => do pure (.convolve (← kv.vals "c") ((kv.vals "taps").getD []))
   | "delay" => do pure (.delay (← kv.nat "N") ((kv.vals "taps").getD []))
+  -- the inner averages' own copies of the width (`mw`, `vw`) are not in the model: workloads that give them a
+  -- different value reset the filter before they feed it
+  | "emeanvar" => do pure (.emeanVar (← kv.val "w") { mean := ← kv.optVal "mean", var := ← kv.optVal "var" })
   | _ => none
 
 /-! ### one line -/
@@ -469,7 +477,17 @@ def closeCase (d : DState) : List String :=
 /-- filter-instance operations; `none` if the line is not one of them -/
 def stepFilterOp (d : DState) (op : String) (toks impl : List String) : Option (DState × List String) :=
   let implS := " ".intercalate impl
+  -- `fp <id> <k> <x…>`: `filter` during which the k-th sample comparison panics; a call that makes fewer comparisons
+  -- is an ordinary `f`
+  let toks := match toks with
+    | "fp" :: id :: _ :: args => if implS == "panicked" then toks else "f" :: id :: args
+    | t => t
   match toks with
+  | "fp" :: id :: _ => do
+    let id ← id.toNat?
+    let inst ← d.get id
+    let d := (d.put id { inst with poisoned := true, last := none, own := false }).flag "cmp-panic"
+    some (report d op { model := "panicked", impl := implS, kind := kindName inst.st })
   | "new" :: id :: kind :: rest => do
     let id ← id.toNat?
     match mkCfg kind (parseKV rest) with
@@ -488,6 +506,8 @@ def stepFilterOp (d : DState) (op : String) (toks impl : List String) : Option (
   | "f" :: id :: args => do
     let id ← id.toNat?
     let inst ← d.get id
+    -- on the state an abandoned call left behind nothing is predicted (a further panic of safe code included)
+    if inst.poisoned then some (report d op { model := implS, impl := implS, kind := kindName inst.st }) else
     let xs ← args.mapM V.parse
     let implOut ← parseOut impl
     let res := match inst.st with
@@ -561,7 +581,7 @@ def stepFilterOp (d : DState) (op : String) (toks impl : List String) : Option (
     -- Own clauses of the property: never a double drop / use of a dead value (`errors=0`), and nothing is live once
     -- every instance has been dropped. The count in between is a model correspondence (DIFF), not the property itself.
     let total := (d.insts.filter (·.2.tracked)).foldl (fun n p => n + p.2.st.owned) 0
-    let e := s!"live={total} errors=0"
+    let e := if d.insts.any (·.2.poisoned) then implS else s!"live={total} errors=0"
     let d := d.flag (if total == 0 then "ledger.empty" else "ledger.nonempty")
     let noErr := implS.endsWith "errors=0"
     let anyTracked := d.insts.any (·.2.tracked)
